@@ -9,8 +9,20 @@ All personalities 0..9.  `python3 lib/gen_req.py N out.txt [seed] [tier]` writes
 import random, sys
 
 # ---- named exclusions (library findings that abort a sanitizer run; see the report) ----
-# none of the request-direction classes needed an exclusion so far
-EXCLUDE_NOTHING = True
+# A TRANSACTION_COMPLETE callback that destroys its transaction makes htp_tx_finalize read tx->connp after the free
+# (htp_transaction.c:1202, heap-use-after-free under ASan; the C01 known finding). Request-only histories never
+# complete a transaction, so only the CONNECT class (which has responses) has to avoid the trigger.
+EXCLUDE_TC_DESTROY = True
+# The same from a REQUEST_COMPLETE callback once the response side has completed (possible with CONNECT, where the response
+# is read while the request is parked): htp_tx_state_request_complete_partial reads tx->connp after the free
+# (htp_transaction.c:1039, heap-use-after-free). The model flags the same history with c_fault.
+EXCLUDE_RC_DESTROY = True
+# A STOP/ERROR from a callback during a CONNECT request is forgotten when the refusing response arrives (RES_BODY_DETERMINE
+# rewrites in_status: the C09 "STOP is not sticky" finding); the request parser then resumes in REQ_HEADERS and
+# htp_tx_process_request_headers runs a second time on the same transaction, overwriting tx->request_hostname without
+# freeing it (htp_transaction.c:500, 29 bytes reported by LeakSanitizer). Output still agrees with the model; the
+# CONNECT class keeps such scripts out so that sanitizer runs stay clean.
+EXCLUDE_STOP_IN_CONNECT = True
 
 KNOWN_METHODS = ["GET", "PUT", "POST", "DELETE", "CONNECT", "OPTIONS", "TRACE", "PATCH", "PROPFIND", "PROPPATCH", "MKCOL",
                  "COPY", "MOVE", "LOCK", "UNLOCK", "VERSION-CONTROL", "CHECKOUT", "UNCHECKOUT", "CHECKIN", "UPDATE", "LABEL",
@@ -70,7 +82,8 @@ HOSTS = ["a", "www.example.com", "Example.COM", "example.com.", "ex_ample-1.org"
          "[1:2:3:4:5:6:1.2.3.4]", "[::01.2.3.4]", "[fe80::1%25eth0]", "[::1]x", "[G::]", "[1:]", "[::1:]", "[1:2:3:4:5:6:7::]",
          "[::2:3:4:5:6:7:8]", "[1:2:3:4:5:6:7::8]", "[a:b:c:d:e:f:0:1]", "[::A]", "[1.2.3.4]", "[::256.1.1.1]", "[::1.2.3.4.5]",
          "[" + "1" * 50 + "]", "[" + "0:" * 22 + "]", "[]", "h%41st", "a b", "a\x00b", "%00", "x" * 64, "x" * 63, "y" * 256, ("z" * 60 + ".") * 5,
-         "host\t", "", ".", "a.", "..", "ex\xe4mple"]
+         "host\t", "", ".", "a.", "..", "ex\xe4mple",
+         ".".join(["a" * 63] * 4), ".".join(["a" * 63] * 3 + ["b" * 64]), ".".join(["a" * 63] * 3 + ["b" * 62]) + ".c", ".".join(["a" * 63] * 3 + ["b" * 61]) + ".c"]
 PORTS = ["", ":80", ":8080", ":0", ":65535", ":65536", ":", ":abc", ": 80 ", ":-1", ":99999999999999999999", ":8 0", ":+80", ":080"]
 PATHS = ["/", "/a", "/a/b/c", "/a/./b/../c", "/..", "/.", "/../..", "/a//b", "/a%20b", "/%41%zz", "/%", "/%4", "/%u0041", "/%u00", "/%uFF0F",
          "/a%2fb", "/a%5cb", "/a\\b", "/A/B", "/%00x", "/a\x00b", "/\xc3\xa4", "/\xc0\xaf", "/\xff\xfe", "/\xe2\x82\xac", "/\xf0\x9f\x98\x80",
@@ -460,7 +473,40 @@ def class_malformed(rng, n):
     return out[:n]
 
 
-def gen_cases(rng, tier="quick"):
+def class_connect(rng, n):
+    """CONNECT followed by a response (uses S ops, so it needs the response-direction model): covers
+    REQ_CONNECT_WAIT_RESPONSE after the status line, REQ_CONNECT_PROBE_DATA and the TUNNEL exits."""
+    out = []
+    resps = ["HTTP/1.1 200 OK\r\n\r\n", "HTTP/1.1 404 No\r\nContent-Length: 0\r\n\r\n", "HTTP/1.1 200 OK\r\n", "HTTP/1.1 101 Sw\r\n\r\n",
+             "HTTP/1.0 299 X\r\nContent-Length: 2\r\n\r\nab", "HTTP/1.1 199 X\r\n\r\n", "HTTP/1.1 300 X\r\n\r\n", "junk\r\n\r\n"]
+    tails = ["GET / HTTP/1.0\r\n\r\n", "\x16\x03\x01binary", "  GET /x HTTP/1.1\r\nHost: a\r\n\r\n", "PURGE / HTTP/1.0\r\n\r\n", "abc\x00def\n", "abc", "\n",
+             "GET", "\x00", "POST / HTTP/1.1\r\nContent-Length: 3\r\n\r\nabcGET /2 HTTP/1.0\r\n\r\n"]
+    while len(out) < n:
+        head = B("CONNECT " + rng.choice(["a:443", "[::1]:443", "a", "a:x"]) + " HTTP/1.1\r\n" + rng.choice(["", "Host: a\r\n", "Host: b:1\r\n"]) + "\r\n")
+        tail = B(rng.choice(tails))
+        resp = B(rng.choice(resps))
+        ops = ["O"]
+        if rng.random() < 0.5:
+            ops += ops_random_cuts(rng, head + tail)
+        else:
+            ops += ops_random_cuts(rng, head)
+        ops += ["S" + hx(resp)] if rng.random() < 0.7 else ["S" + hx(resp[:5]), "S" + hx(resp[5:])]
+        for _ in range(rng.randrange(0, 4)):
+            r = rng.random()
+            ops.append("Q" + hx(tail) if r < 0.5 else ("Q" + hx(B(rng.choice(tails))) if r < 0.8 else ("q%d" % rng.randrange(1, 9) if r < 0.9 else "S" + hx(b"xx"))))
+        ops.append(rng.choice(["c", "C", "c,C"]))
+        sc = g_script(rng) if rng.random() < 0.15 else None
+        if sc and EXCLUDE_TC_DESTROY:
+            sc = ";".join(e for e in sc.split(";") if not (e.startswith("18:") and e.endswith(":6"))) or None
+        if sc and EXCLUDE_STOP_IN_CONNECT:
+            sc = ";".join(e for e in sc.split(";") if e.split(":")[2] not in ("2", "3")) or None
+        if sc and EXCLUDE_RC_DESTROY:
+            sc = ";".join(e for e in sc.split(";") if not (e.startswith("9:") and e.endswith(":6"))) or None
+        out.append(case(cfg_str(rng, hard=rng.choice([None, None, 20, 40])), sc, ",".join(ops).split(",")))
+    return out[:n]
+
+
+def gen_cases(rng, tier="quick", with_responses=False):
     thorough = tier == "thorough"
     scale = 12 if thorough else 1
     out = []
@@ -470,11 +516,13 @@ def gen_cases(rng, tier="quick"):
     out += class_callbacks(rng, 700 * scale)
     out += class_gaps(rng, 500 * scale)
     out += class_malformed(rng, 700 * scale)
+    if with_responses:
+        out += class_connect(rng, 300 * scale)
     return out
 
 
 CLASSES = {"special": lambda rng, n: class_special(rng, True), "structured": class_structured, "limits": class_limits,
-           "callbacks": class_callbacks, "gaps": class_gaps, "malformed": class_malformed}
+           "callbacks": class_callbacks, "gaps": class_gaps, "malformed": class_malformed, "connect": class_connect}
 
 if __name__ == "__main__":
     n = int(sys.argv[1]) if len(sys.argv) > 1 else 1000
